@@ -1077,3 +1077,40 @@ def task_registry_ownership(ctx, rid: str) -> None:
     disc = [x for x in own_nodes(addf.node) if isinstance(x, ast.Call) and isinstance(x.func, ast.Attribute) and x.func.attr in ("discard", "remove")]
     c.ob(rid, bool(disc), addf, "completed-task-discarded", "a completed task is discarded from its owner's set" if disc else
          "TaskManager.add no longer discards a completed task from the registry", addf.node)
+
+
+def none_is_the_only_absence(ctx, rid: str, table) -> None:
+    """User data whose falsy values are meaningful (an output of 0 / '' / {} / False, a delay of 0, an empty input or params
+    object) is tested for absence with ``is None`` only.  *table*: (class, method, variable) triples.  Reported: the variable used
+    as a bare truthiness operand (``if not x``, ``x or default``, ``a if x else b``) in that function."""
+    c, p = ctx.c, ctx.p
+    for cls_name, meth, var in table:
+        try:
+            f = p.method(cls_name, meth) if cls_name else next(g for g in p.all_funcs if g.name == meth and g.cls is None)
+        except Exception:
+            continue
+        bare = []
+        for x in own_nodes(f.node):
+            tests = []
+            if isinstance(x, (ast.If, ast.While, ast.IfExp)):
+                tests.append(x.test)
+            elif isinstance(x, ast.BoolOp):
+                tests.extend(x.values[:-1] if isinstance(x.op, ast.Or) else x.values)
+            elif isinstance(x, ast.comprehension):
+                tests.extend(x.ifs)
+            for t in tests:
+                stack = [t]
+                while stack:
+                    e = stack.pop()
+                    if isinstance(e, ast.UnaryOp) and isinstance(e.op, ast.Not):
+                        stack.append(e.operand)
+                    elif isinstance(e, ast.BoolOp):
+                        stack.extend(e.values)
+                    elif norm(e) == var:
+                        bare.append((x, e))
+        none_tests = [y for y in own_nodes(f.node) if isinstance(y, ast.Compare) and norm(y.left) == var and isinstance(y.ops[0], (ast.Is, ast.IsNot))
+                      and isinstance(y.comparators[0], ast.Constant) and y.comparators[0].value is None]
+        ok = not bare
+        c.ob(rid, ok, f, f"absence-is-none:{meth}:{var}", f"'{var}' is tested for absence with 'is None' ({len(none_tests)} test(s)); falsy values are kept" if ok else
+             f"'{var}' is used as a truth value in {f.short} ('{stmt_text(bare[0][0], 70)}'): a legitimate falsy value (0, False, '', [], {{}}) is treated as "
+             f"'not given' and silently replaced / dropped", bare[0][0] if bare else f.node)
